@@ -265,23 +265,26 @@ func (f *frame) load(addr Term, t types.Type, pd *ptrDesc) Term {
 		return arr
 	}
 	var v Term
+	var hn string
 	if pd != nil && pd.kind == pdField {
-		hn, hs := tt.fieldHeap(pd.si, pd.field)
+		var hs Sort
+		hn, hs = tt.fieldHeap(pd.si, pd.field)
 		v = mkSelect(f.st.get(hn, hs), pd.base, tt.sortOf(t))
 	} else {
 		obj, off := elemLoc(addr, pd)
 		v = f.elemRead(f.st, t, obj, off)
+		hn, _ = tt.elemHeap(t)
+	}
+	if hasRefs(t) {
+		// references stored in a heap were allocated before the last write to that heap
+		f.vc.assume(tt.typeInv(v, t, f.st.get("A$"+hn, SBV64)))
 	}
 	return v
 }
 
 // loadInv loads and assumes the type invariant of the loaded value.
 func (f *frame) loadInv(addr Term, t types.Type, pd *ptrDesc, nameBase string) Term {
-	v := f.vc.define(nameBase, f.load(addr, t, pd))
-	if hasRefs(t) {
-		f.vc.assume(f.tt().typeInv(v, t, f.curAlloc()))
-	}
-	return v
+	return f.vc.define(nameBase, f.load(addr, t, pd))
 }
 
 func hasRefs(t types.Type) bool {
